@@ -359,6 +359,48 @@ def r12e(ctx, rep, rule="R12e"):
         (rep.ok if ok else rep.fail)(rule, "%s|run_gc|grow-after-sweep" % rule,
                                      "in run_gc the heap grows only after a sweep" if ok else
                                      "run_gc can grow the heap without having swept", [gc.span])
+        # the growth decision looks at the heap as the sweep left it
+        from ..shapes import dominating_guards
+
+        def calls_in(fn, op, depth=6, out=None):
+            out = out if out is not None else []
+            if op is None or depth < 0:
+                return out
+            o = fn.origin(op)
+            if o[0] == "call":
+                out.append((o[3], o[1]))
+                for a in o[1]["args"]:
+                    calls_in(fn, a, depth - 1, out)
+            elif o[0] == "rv":
+                rv = o[1]["rv"]
+                for k in ("a", "b"):
+                    if k in rv:
+                        calls_in(fn, rv[k], depth - 1, out)
+                for a in rv.get("ops", []):
+                    calls_in(fn, a, depth - 1, out)
+                if "place" in rv:
+                    calls_in(fn, {"copy": rv["place"]}, depth - 1, out)
+            return out
+        for g in gr:
+            readings = []
+            for sbb, cond, taken, t in dominating_guards(gc, g):
+                if not any(gc.dominates(s_, sbb) for s_ in sw):
+                    continue        # the early return before marking
+                readings += [(b2, t2) for b2, t2 in calls_in(gc, cond) if (callee(t2) or "").startswith(HEAP) or (
+                    (callee(t2) or "").startswith("marwood::") and any(x.startswith(HEAP) for x in cg.reachable_from([callee(t2)])))]
+            key = "%s|run_gc|grow-decision-after-sweep" % rule
+            if not readings:
+                rep.fail(rule, key, "run_gc decides to grow the heap without reading the heap's occupancy after the sweep (a "
+                         "value computed before marking is stale: it is at or above the collection threshold by construction, so "
+                         "every collection would be followed by a growth)", [gc.span])
+            else:
+                stale = [(b2, t2) for b2, t2 in readings if not any(gc.dominates(s_, b2) and s_ != b2 for s_ in sw)]
+                (rep.fail if stale else rep.ok)(
+                    rule, key, "run_gc's decision to grow reads %s before the sweep: the value is stale (at or above the collection "
+                    "threshold by construction), so the heap grows after every collection no matter how much was freed" % (
+                        ", ".join(sorted({short_path(callee(t2)) for b2, t2 in stale}))) if stale else
+                    "the decision to grow reads the heap (%s) after the sweep" % ", ".join(sorted({short_path(callee(t2)) for b2, t2 in readings})),
+                    [gc.span])
     al = facts.fn(HEAP + "alloc")
     if al is not None:
         # grow in alloc only on the None edge of free_list.pop()
@@ -368,6 +410,83 @@ def r12e(ctx, rep, rule="R12e"):
         (rep.ok if ok else rep.fail)(rule, "%s|alloc|grow-after-empty-free-list" % rule,
                                      "Heap::alloc grows only after looking at the free list" if ok else
                                      "Heap::alloc grows without consulting the free list", [al.span])
+
+
+def r12i(ctx, rep, rule="R12i"):
+    """global bindings are created only for names that code refers to"""
+    from .. import shapes
+    facts, cg = ctx["facts"], ctx["cg"]
+    rep.rule(rule, "a global binding is created only where it is used: the keys of GlobalEnvironment.bindings are collection "
+             "roots and a binding is never removed, so the creating lookup (the function that inserts into `bindings`) may be "
+             "called only where the slot it returns becomes an operand of emitted code (VCell::env_slot) or is stored into "
+             "(put_slot). A mere query — is this symbol bound to a macro? — must use the non-creating lookup, or every symbol "
+             "that passes by is pinned together with a slot for the rest of the VM's life.")
+    creators = []
+    for p, f in sorted(facts.fns.items()):
+        if not p.startswith("marwood::vm::environment::GlobalEnvironment::") or "{closure" in p:
+            continue
+        for bb, t in f.calls():
+            if (callee(t) or "").endswith("HashMap::<K, V, S, A>::insert") and "bindings" in shapes.shape(f, t["args"][0], 3):
+                creators.append(p)
+    creators = sorted(set(creators))
+    if not creators:
+        rep.anchor_lost(rule, "no function of GlobalEnvironment inserts into `bindings`")
+        return
+    n = 0
+    for cr in creators:
+        for c in sorted(cg.callers(cr)):
+            f = facts.fns.get(c)
+            if f is None:
+                continue
+            sites = [(bb, t) for bb, t in f.calls() if callee(t) == cr]
+            sinks = [shapes.shape(f, a, 4) for bb, t in f.calls() if (callee(t) or "").endswith(("VCell::env_slot", "GlobalEnvironment::put_slot"))
+                     for a in t["args"]]
+            used = any(short_path(cr) + "(" in sh for sh in sinks)
+            n += 1
+            key = "%s|%s|%s" % (rule, short_path(cr).rsplit("::", 1)[-1], f.short)
+            if used:
+                rep.ok(rule, key, "%s creates a binding and emits / stores into its slot" % f.short, [sites[0][1]["loc"]])
+            else:
+                rep.fail(rule, key, "%s calls the creating lookup %s but neither emits the slot as an operand nor stores into it: a "
+                         "binding (collection root + slot) is created for every symbol looked up, and never released" % (
+                             f.short, short_path(cr)), [sites[0][1]["loc"]])
+    rep.floor(rule, "callers of the creating global lookup", n, 5)
+
+
+def r12j(ctx, rep, rule="R12j"):
+    """Stack::clear wipes the whole stack"""
+    from .. import shapes
+    facts, cg = ctx["facts"], ctx["cg"]
+    rep.rule(rule, "the stack wipe is total: every slot up to %sp is a collection root (Stack::iter_to_sp), and an embedder may "
+             "abandon a sliced evaluation and prepare another on top of its frames, so Stack::clear — called when an evaluation "
+             "ends — must reset every slot of the vector: a whole-vector replacement of the same length, or a fill over the "
+             "full range. Wiping only a sub-range (say, above %sp) leaves abandoned frames alive for the rest of the VM's life.")
+    f = need(rep, rule, facts, STACK + "clear")
+    if f is None:
+        return
+    callers = cg.callers(f.path)
+    rep.floor(rule, "callers of Stack::clear", len(callers), 1)
+    whole, partial = [], []
+    for bb, j, s_ in f.stmts():
+        l = s_["lhs"]
+        if l["l"] == 1 and [e.get("n") for e in l["p"] if isinstance(e, dict)] == ["stack"] and s_["rv"]["k"] == "use":
+            sh = shapes.shape(f, s_["rv"]["a"], 4)
+            (whole if re.match(r"vec::from_elem\(.*vec::Vec::<T, A>::len\(a1\.stack\)\)$", sh) else partial).append((sh, s_["loc"]))
+    for bb, t in f.calls():
+        c = callee(t) or ""
+        if c.endswith(("<impl [T]>::fill", "<impl [T]>::fill_with")):
+            sh = shapes.shape(f, t["args"][0], 4)
+            full = re.fullmatch(r"<vec::Vec<T, A> as ops::DerefMut>::deref_mut\(a1\.stack\)", sh) or "RangeFull" in sh \
+                or re.search(r"Range(From)?::Range(From)?\(c:0[,)]", sh) and "RangeFrom" in sh
+            (whole if full else partial).append((sh, t["loc"]))
+    key = rule + "|Stack::clear"
+    if partial:
+        rep.fail(rule, key, "Stack::clear resets only part of the stack (%s): slots outside that range keep their old values, "
+                 "and those at or below %%sp are treated as roots by every later collection" % partial[0][0][:140], [partial[0][1]])
+    elif whole:
+        rep.ok(rule, key, "Stack::clear resets every slot (%s)" % whole[0][0][:100], [whole[0][1]])
+    else:
+        rep.anchor_lost(rule, "Stack::clear neither replaces nor fills the stack vector in a recognised form")
 
 
 SHRINKING = ("truncate", "clear", "pop", "drain", "shrink_to_fit", "shrink_to", "split_off", "remove", "swap_remove",
